@@ -62,7 +62,7 @@ def programs(draw, max_modules=3, max_tasks=4, kinds=KINDS_BASIC, patterns=True,
                     rel2 = draw(st.sampled_from(['left', 'right', 'valid', 'm2']))
                     if deps[-1]['rel'] == '':
                         deps[-1]['rel'] = draw(st.sampled_from(['train', 'm']))
-                    deps.append({'mod': mj, 'rel': rel2, 'voff': draw(st.integers(0, 2))})
+                    deps.append({'mod': mj, 'rel': rel2, 'voff': draw(st.sampled_from([0, 1, 1, 2]))})
         mod = {'name': MODULE_NAMES[mi], 'sub': sub, 'deps': deps, 'tasks': [], 'objects': objects}
         ntasks = draw(st.integers(1, max_tasks))
         for ti in range(ntasks):
@@ -131,6 +131,19 @@ def programs(draw, max_modules=3, max_tasks=4, kinds=KINDS_BASIC, patterns=True,
                 cands = [c for c in cands if not modules_get(modules, mod, c)['abstract']]
                 n_in = draw(st.integers(0, min(3, len(cands))))
                 chosen = draw(st.lists(st.sampled_from(cands), min_size=n_in, max_size=n_in, unique=True)) if cands else []
+                # the documented side-by-side pattern: the SAME upstream task taken from two mounts of one pipeline
+                # (train::dataset and valid::dataset) - which mount supplies which computation is part of the consumer
+                twins = {}
+                for d in deps:
+                    twins.setdefault(d['mod'], []).append(d['rel'])
+                twins = {m_: sorted(set(r_)) for m_, r_ in twins.items() if len(set(r_)) >= 2}
+                if twins and draw(st.booleans()):
+                    m_ = draw(st.sampled_from(sorted(twins)))
+                    ok_tasks = [i for i in range(len(modules[m_]['tasks'])) if not modules[m_]['tasks'][i]['abstract']]
+                    if ok_tasks:
+                        ti_ = draw(st.sampled_from(ok_tasks))
+                        chosen = [c for c in chosen if not (c[0] == m_ and c[1] == ti_)][:1] + \
+                                 [(m_, ti_, twins[m_][0]), (m_, ti_, twins[m_][1])]
                 for (tm, tidx, rel) in chosen:
                     tgt = modules_get(modules, mod, (tm, tidx, rel))
                     forms = ['gname', 'gname']
@@ -317,6 +330,10 @@ def config_trees(draw, program, n_variants=None, allow_multi=True, allow_context
     """Files: for every module and every variant v a config file; variant v uses variant v of the dependencies."""
     modules = program['modules']
     nvar = n_variants or draw(st.integers(1, 3))
+    # a pipeline mounted twice side by side with ANOTHER configuration needs >= 2 variants that really differ there
+    twin_mods = {d['mod'] for mod in modules for d in mod['deps'] if d.get('voff')}
+    if twin_mods and not n_variants:
+        nvar = max(nvar, 2)
     # base values per module
     base_vals = []
     for mod in modules:
@@ -331,6 +348,8 @@ def config_trees(draw, program, n_variants=None, allow_multi=True, allow_context
     for v in range(nvar):
         # variant v > 0 differs from variant 0 in the modules of diff set D_v (possibly empty: a renamed copy)
         diff = set() if v == 0 else set(draw(st.lists(st.integers(0, len(modules) - 1), max_size=2)))
+        if v and twin_mods and draw(st.integers(0, 3)) > 0:
+            diff |= twin_mods
         for mi, mod in enumerate(modules):
             vals = copy.deepcopy(base_vals[mi])
             changed = []
